@@ -500,7 +500,7 @@ def configs(n):
 def _prepare(prog):
     m = _load()
     name, src, regs, _ = prog
-    code, labels, offs = m["J"].assemble(ARCH, src)
+    code, labels, offs = m["C"].assemble(ARCH, src)
     regs = {k: (labels[v] if isinstance(v, str) else v) for k, v in regs.items()}
     return code, labels, offs, regs
 
